@@ -154,15 +154,25 @@ def abstract(dump, pkg_imports):
 
 
 def encode_expectation(sec):
-    """what the reference says about encoding, from the implementation's own imports listing"""
+    """what the reference says about encoding, from the implementation's own imports listing: an implicit import may not
+    share its name with an explicit one (ImportConflict); implicit imports of one name are merged, which fails for
+    unmergeable types (the merge itself is C09's subject); when a document has both, either diagnostic is acceptable in
+    the order the instantiations are visited"""
     imps = [tuple(t.split(",")) for t in re.findall(r"\(([^)]*)\)", sec.get("I", ""))]
     explicit = {n for n, _, nd in imps if nd != "-"}
-    implicit = [(n, k) for n, k, nd in imps if nd == "-"]
-    if any(n in explicit for n, _ in implicit):
-        return {"enc:E:ImportConflict"}
-    if any(m == n and j != k for n, k in implicit for m, j in implicit):
-        return {"enc:ok", "enc:E:InstantiationArgMergeFailure"}
-    return {"enc:ok"}
+    ok = set()
+    seen = {}
+    for n, k, nd in imps:
+        if nd != "-":
+            continue
+        if n in explicit:
+            ok.add("enc:E:ImportConflict")
+            return ok
+        if n in seen and seen[n] != k:
+            ok.add("enc:E:InstantiationArgMergeFailure")
+        seen.setdefault(n, k)
+    ok.add("enc:ok")
+    return ok
 
 
 def impl_verdict(impl, pkg_imports):
